@@ -53,7 +53,8 @@ theorem fastAppend_own {s : State} {h b : Nat} {x : Buf} (inv : Inv s) (o : Own 
     ∃ s' k, fastAppend s h b w nblk esz bytes = .ok s' k ∧ k ≤ nblk ∧
       (nblk ≠ 0 → esz ≠ 0 → esz ≤ x.size - (w.off + w.len) → 1 ≤ k) ∧ Inv s' ∧ (∀ h', h' ≠ h → s'.abs h' = s.abs h') ∧
       s'.win h = some { off := w.off, len := w.len + k * esz } ∧
-      Vec.sub (s'.abs h) w.off (w.len + k * esz) = Vec.sub x.content w.off w.len ++ Vec.blocks bytes k esz := by
+      Vec.sub (s'.abs h) w.off (w.len + k * esz) = Vec.sub x.content w.off w.len ++ Vec.blocks bytes k esz ∧
+      (s'.abs h).length = max x.used (w.off + w.len + k * esz) := by
   have xu := inv.used b x o.hb
   unfold fastAppend
   rw [o.hb]
@@ -74,11 +75,15 @@ theorem fastAppend_own {s : State} {h b : Nat} {x : Buf} (inv : Inv s) (o : Own 
     o.ref rfl (by simp only [Buf.size, wl]; simp only [Buf.size] at pfit xu; omega) (by rw [xt]; exact PlainT.none)
     (by simp [xt, esize, Nat.mod_one])
   obtain ⟨inv', _, abs', oth', _⟩ := up
-  refine ⟨_, k, rfl, kn, ?_, inv'.setWin _ _, oth', State.win_setWin _ _ _ hwl, ?_⟩
+  refine ⟨_, k, rfl, kn, ?_, inv'.setWin _ _, oth', State.win_setWin _ _ _ hwl, ?_, ?_⟩
   · intro n0 e0 room
     rw [← hk]
     have : 1 ≤ (x.size - (w.off + w.len)) / esz := Nat.div_pos room (Nat.pos_of_ne_zero e0)
     omega
+  rotate_left
+  · show ((s.setBuf b _).abs h).length = _
+    rw [abs']
+    exact content_length _ (by simp only [Buf.size, wl]; simp only [Buf.size] at pfit xu; omega)
   show Vec.sub ((s.setBuf b _).abs h) _ _ = _
   rw [abs']
   simp only [Vec.sub, Vec.blocks, Buf.content]
@@ -225,7 +230,9 @@ theorem sliceWrite_sem (s : State) (h nblk esz : Nat) (bytes : List Byte) (w : W
     | .fail s' _ => Inv s' ∧ ∀ h', s'.abs h' = s.abs h'
     | .ok s' k => Inv s' ∧ k ≤ nblk ∧ (nblk ≠ 0 → 1 ≤ k) ∧ (∀ h', h' ≠ h → s'.abs h' = s.abs h') ∧
         ∃ w', s'.win h = some w' ∧
-          Vec.sub (s'.abs h) w'.off w'.len = Vec.sub (s.abs h) w.off w.len ++ Vec.blocks bytes k esz := by
+          Vec.sub (s'.abs h) w'.off w'.len = Vec.sub (s.abs h) w.off w.len ++ Vec.blocks bytes k esz ∧
+          ((s'.abs h).length - (w'.off + w'.len) = 0 ∨
+            (s'.abs h).length - (w'.off + w'.len) = (s.abs h).length - (w.off + w.len) - k * esz) := by
   have hwl := State.win_lt hw
   have hwl' : ∀ v, h < (s.setWin h v).wins.length := by intro v; simp [State.setWin]; exact hwl
   have blk : Vec.blocks bytes nblk esz = bytes := by
@@ -238,7 +245,9 @@ theorem sliceWrite_sem (s : State) (h nblk esz : Nat) (bytes : List Byte) (w : W
       | .fail s' _ => Inv s' ∧ ∀ h', s'.abs h' = s.abs h'
       | .ok s' k => Inv s' ∧ k ≤ nblk ∧ (nblk ≠ 0 → 1 ≤ k) ∧ (∀ h', h' ≠ h → s'.abs h' = s.abs h') ∧
           ∃ w', s'.win h = some w' ∧
-            Vec.sub (s'.abs h) w'.off w'.len = Vec.sub (s.abs h) w.off w.len ++ Vec.blocks bytes k esz := by
+            Vec.sub (s'.abs h) w'.off w'.len = Vec.sub (s.abs h) w.off w.len ++ Vec.blocks bytes k esz ∧
+            ((s'.abs h).length - (w'.off + w'.len) = 0 ∨
+              (s'.abs h).length - (w'.off + w'.len) = (s.abs h).length - (w.off + w.len) - k * esz) := by
     intro bx hk hbx
     have ss := sliceSlow_sem (S := s.setWin h (some w)) (inv.setWin _ _) hlt (hwl' _) w bx hk hbx nblk esz bytes bl
     generalize sliceSlow (s.setWin h (some w)) h w bx nblk esz bytes = r at ss
@@ -247,12 +256,15 @@ theorem sliceWrite_sem (s : State) (h nblk esz : Nat) (bytes : List Byte) (w : W
     | fail s' e => exact ss
     | ok s' k =>
       obtain ⟨inv', ek, oth, win', abs'⟩ := ss
-      refine ⟨inv', by omega, fun _ => by omega, oth, _, win', ?_⟩
-      rw [abs', ek, blk]
       have : (Vec.sub ((s.setWin h (some w)).abs h) w.off w.len).length = w.len := sub_length _ _ _ wfit
-      have sa := sub_all (Vec.sub ((s.setWin h (some w)).abs h) w.off w.len) bytes
-      rw [this, bl] at sa
-      exact sa
+      refine ⟨inv', by omega, fun _ => by omega, oth, _, win', ?_, Or.inl ?_⟩
+      · rw [abs', ek, blk]
+        have sa := sub_all (Vec.sub ((s.setWin h (some w)).abs h) w.off w.len) bytes
+        rw [this, bl] at sa
+        exact sa
+      · rw [abs', List.length_append, this, bl]
+        show w.len + nblk * esz - (0 + (w.len + nblk * esz)) = 0
+        omega
   unfold sliceWrite
   simp only [hw, Option.getD_some]
   cases hh : s.handle h with
@@ -290,15 +302,22 @@ theorem sliceWrite_sem (s : State) (h nblk esz : Nat) (bytes : List Byte) (w : W
         have o : Own (s.setWin h (some w)) h b x := ⟨hh, hb, r1, priv.1⟩
         by_cases n0 : nblk = 0
         · rw [if_pos n0]
-          refine ⟨inv.setWin _ _, by omega, fun c => absurd n0 c, fun _ _ => rfl, w, State.win_setWin _ _ _ hwl, ?_⟩
-          simp [Vec.blocks]
-          rfl
+          refine ⟨inv.setWin _ _, by omega, fun c => absurd n0 c, fun _ _ => rfl, w, State.win_setWin _ _ _ hwl, ?_, Or.inr ?_⟩
+          · simp [Vec.blocks]
+            rfl
+          · show (s.abs h).length - (w.off + w.len) = (s.abs h).length - (w.off + w.len) - 0 * esz
+            omega
         · rw [if_neg n0]
           by_cases fast : x.size - (w.off + w.len) ≥ esz
           · rw [if_pos fast]
-            obtain ⟨s', k, q, kn, k1, inv', oth, win', sub'⟩ := fastAppend_own (inv.setWin _ _) o xt w wf' nblk esz bytes bl (hwl' _)
+            obtain ⟨s', k, q, kn, k1, inv', oth, win', sub', len'⟩ := fastAppend_own (inv.setWin _ _) o xt w wf' nblk esz bytes bl (hwl' _)
             rw [q]
-            exact ⟨inv', kn, fun c => k1 c e0 fast, oth, _, win', by rw [sub', absx]⟩
+            refine ⟨inv', kn, fun c => k1 c e0 fast, oth, _, win', by rw [sub', absx], ?_⟩
+            rw [len', absx, content_length x xu]
+            show max x.used (w.off + w.len + k * esz) - (w.off + (w.len + k * esz)) = 0 ∨
+              max x.used (w.off + w.len + k * esz) - (w.off + (w.len + k * esz)) = x.used - (w.off + w.len) - k * esz
+            generalize k * esz = t
+            omega
           · rw [if_neg fast]
             by_cases front : w.off ≠ 0 ∧ x.size - (w.off + w.len) + w.off ≥ esz
             · rw [if_pos front]
@@ -313,11 +332,16 @@ theorem sliceWrite_sem (s : State) (h nblk esz : Nat) (bytes : List Byte) (w : W
               have o1' : Own (sliceFront (s.setWin h (some w)) h b x w) h b
                   { x with data := (if w.len ≠ 0 then Mem.move x.data 0 w.off w.len else x.data), used := w.len } :=
                 ⟨o1.hh, o1.hb, o1.ref, o1.wr⟩
-              obtain ⟨s', k, q, kn, k1, inv', oth, win', sub'⟩ := fastAppend_own (s := sliceFront (s.setWin h (some w)) h b x w)
+              obtain ⟨s', k, q, kn, k1, inv', oth, win', sub', len'⟩ := fastAppend_own (s := sliceFront (s.setWin h (some w)) h b x w)
                 (inv1.setWin _ _) o1' xt { off := 0, len := w.len } (by simp) nblk esz bytes bl
                 (by simp only [sliceFront, setUsed, State.setWin, State.setBuf, List.length_set]; exact hwl)
               rw [q]
-              refine ⟨inv', kn, fun c => k1 c e0 ?_, fun h' ne => ?_, _, win', ?_⟩
+              refine ⟨inv', kn, fun c => k1 c e0 ?_, fun h' ne => ?_, _, win', ?_, Or.inl ?_⟩
+              rotate_right
+              · rw [len']
+                show max w.len (0 + w.len + k * esz) - (0 + (w.len + k * esz)) = 0
+                generalize k * esz = t
+                omega
               · show esz ≤ (if w.len ≠ 0 then Mem.move x.data 0 w.off w.len else x.data).length - (0 + w.len)
                 rw [dlen]
                 have := front.2
